@@ -138,6 +138,9 @@ def fixed_cases(tier):
         {"steps": [{"op": "watchall", "l": 0, "when": ["d", 0.01]}, o(INF), {"op": "unwatchall", "l": 0, "when": ["d", 0.1]}, stop,
                    {"op": "watchall", "l": 2, "when": ["d", 0.1]}]},  # D10: StopOffer while nobody watches
         {"steps": [w, o(1), {"op": "watch", "l": 1, "filter": [0x1000, 0x0101, 1, 0x10000], "when": ["t", 0, "-q"]}]},  # D9: register in the iteration of an expiry
+        # D12: a re-offer with a shorter TTL arrives while nobody watches; the entry found earlier must not outlive it
+        {"steps": [{"op": "watchall", "l": 0, "when": ["d", 0.01]}, o(INF), {"op": "unwatchall", "l": 0, "when": ["d", 0.1]}, o(1), {"op": "watchall", "l": 2, "when": ["d", 0.1]}]},
+        {"steps": [{"op": "watchall", "l": 0, "when": ["d", 0.01]}, o(3), {"op": "unwatchall", "l": 0, "when": ["d", 0.1]}, o(1), {"op": "watchall", "l": 2, "when": ["d", 0.1]}, {"op": "lost", "when": ["d", 2.0]}]},
         {"steps": [w, o(INF), o(INF, s=1), o(INF, "reset", s=2)]},      # reboot: old A,B stopped before new C offered
     ]
 
